@@ -50,9 +50,9 @@ func verifMutate(rnd *rand.Rand, src []byte, id float64, indels bool) []byte {
 					break
 				}
 			}
-		case indels && rnd.Intn(120) == 0:
+		case indels && rnd.Intn(200) == 0:
 			// deletion
-		case indels && rnd.Intn(120) == 0:
+		case indels && rnd.Intn(200) == 0:
 			out = append(out, l, "ACGT"[rnd.Intn(4)])
 		default:
 			out = append(out, l)
@@ -187,9 +187,14 @@ func TestVerifBounded_C15_PlantedRepeats(t *testing.T) {
 		minLen := []int{100, 150, 200}[rnd.Intn(3)]
 		minID := []float64{0.85, 0.9, 0.95}[rnd.Intn(3)]
 		kind := rnd.Intn(3) // exact, substitutions, substitutions and small indels
+		// identity comfortably above the threshold: at most 40% of the allowed difference rate as substitutions,
+		// and with indels (about 1% of the positions) at most 20%
 		id := 1.0
-		if kind > 0 {
-			id = minID + (1-minID)*0.6 // comfortably above the threshold
+		switch kind {
+		case 1:
+			id = 1 - (1-minID)*0.4
+		case 2:
+			id = 1 - (1-minID)*0.2
 		}
 		tb := verifRandDNA(rnd, bgT)
 		qb := verifRandDNA(rnd, bgQ)
